@@ -1,4 +1,5 @@
 import SccacheModel.Model.Dist
+import SccacheModel.Gen.Args
 
 /-! # C13 — distributed compiles match local ones in artefacts and status, or fall back
 
@@ -43,5 +44,40 @@ theorem exit_status_roundtrip (c : Nat) (h : c < 256) : codeOfRaw (ofRemoteFixed
     Repaired in /repo by a `fix:` commit. -/
 theorem exit_status_pinned_witness : codeOfRaw (ofRemotePinned 1) = none ∧ signalOfRaw (ofRemotePinned 1) = some 1 :=
   DistM.exit_status_pinned_witness
+
+/-! ## the argument vector that travels (`ArgsM.distRegen`, tied by `h_args` on both `rewrite_includes_only` settings) -/
+open ArgsM in
+/-- `dist_command_shape`: whenever a request is distributed, the remote compiler gets — in this order — the language (`-x …`, the
+    `…-cpp-output` form unless includes are only rewritten), the compilation flag, the input, `-o` output, for gcc
+    `[-fdirectives-only] -fpreprocessed`, and then **all common (hashed) arguments, in order and nothing after them**.
+    Preprocessor and dependency arguments stay with the local preprocessing step. -/
+theorem dist_command_shape (gcc rio : Bool) (p : Parsed) (d : List Bytes) (h : distRegen gcc rio p = some d) :
+    ∃ l, distLang rio p = some l ∧ d = distHead gcc rio p l ++ p.common ∧ (distHead gcc rio p l).length ≤ 8 := by
+  unfold distRegen at h
+  split at h
+  · cases h
+  · split at h
+    · cases h
+    · rename_i l hl
+      split at h
+      · injection h with h
+        refine ⟨l, hl, h.symm, ?_⟩
+        unfold distHead
+        cases l <;> cases gcc <;> simp <;> split <;> simp
+      · cases h
+
+open ArgsM in
+/-- a request with `-v` / `--verbose` among its arguments, and CUDA, always compile locally -/
+theorem verbose_and_cuda_stay_local (gcc rio : Bool) (p : Parsed)
+    (h : (regen p).contains (sb "-v") = true ∨ (regen p).contains (sb "--verbose") = true ∨ p.lang = .cuda) :
+    distRegen gcc rio p = none := by
+  unfold distRegen
+  have : distLocalOnly p = true := by
+    unfold distLocalOnly
+    rcases h with h | h | h
+    · rw [h]; simp
+    · rw [h]; simp
+    · rw [h]; simp
+  simp [this]
 
 end C13
